@@ -5,7 +5,9 @@
 
       internal/delivery/lmtp/session.go     Session.handleDATA
           (from "Parse message" on: ParseMessage / ValidateMessage failure ->
-           ONE 554 for the whole transaction; else DeliverToMultipleRecipients
+           rejectMessage: one 554 PER recipient, nothing attempted (raven aeac4b2;
+           before that commit: ONE 554 for the whole transaction); else
+           DeliverToMultipleRecipients
            and the reply loop "for _, recipient := range s.recipients" reading
            the result MAP — one entry per distinct recipient string)
       internal/delivery/storage/storage.go  Storage.DeliverToMultipleRecipients
@@ -205,7 +207,7 @@ Definition reply_for (m : rmap) (r : str) : reply :=
 
 Definition lmtp_data (w : world) (folder : str) (rs : list str) (p : parsed) (clk : nat -> Z)
   : world * list reply * list attempt :=
-  if negb (p_ok p) then (w, [R554], map (fun r => mkAtt w w r false) rs)   (* nothing attempted *)
+  if negb (p_ok p) then (w, map (fun _ => R554) rs, map (fun r => mkAtt w w r false) rs)   (* rejectMessage: nothing attempted *)
   else
     let '(w', atts) := deliver_all w folder rs p clk 0 in
     (w', map (reply_for (results_of atts)) rs, atts).
